@@ -203,6 +203,32 @@ func genSplit(r *rand.Rand, n int, maxPieces int) ([]int, string) {
 
 var errShort = errors.New("sink full")
 
+// a panic inside the codec, caught by the harness: always a violation
+var errPanic = errors.New("panic in the codec")
+
+func safeRead(rd io.Reader, b []byte) (n int, err error) {
+	defer func() {
+		if p := recover(); p != nil {
+			n, err = 0, fmt.Errorf("%w: %v", errPanic, p)
+		}
+	}()
+	return rd.Read(b)
+}
+
+func safeCopy(dst io.Writer, rd io.Reader, viaCopy bool) (err error) {
+	defer func() {
+		if p := recover(); p != nil {
+			err = fmt.Errorf("%w: %v", errPanic, p)
+		}
+	}()
+	if viaCopy {
+		_, err = io.Copy(dst, rd)
+	} else {
+		_, err = rd.(io.WriterTo).WriteTo(dst)
+	}
+	return err
+}
+
 func errClass(err error) string {
 	switch {
 	case err == nil:
@@ -211,6 +237,8 @@ func errClass(err error) string {
 		return "EOF"
 	case errors.Is(err, io.ErrUnexpectedEOF):
 		return "UEOF"
+	case errors.Is(err, errPanic):
+		return "PANIC"
 	case errors.Is(err, errShort):
 		return "SHORT"
 	case errors.Is(err, errIO):
@@ -495,7 +523,7 @@ func genXW(r *rand.Rand, big bool) {
 	// the pooled object
 	var h *csnappy.VerifXW
 	objSpec := "-"
-	if r.Intn(4) != 0 {
+	if r.Intn(4) != 0 && !forcedBigHistory {
 		var c int
 		switch k := r.Intn(10); {
 		case k == 0:
@@ -542,6 +570,12 @@ func genXW(r *rand.Rand, big bool) {
 	}
 
 	nstreams := 1 + r.Intn(3)
+	bigHistory := forcedBigHistory
+	forcedBigHistory = false
+	if bigHistory {
+		nstreams = 2
+		feats["history=large-unframed-then-framed"] = true
+	}
 	if nstreams > 1 {
 		feats["history"] = true
 	}
@@ -562,7 +596,11 @@ func genXW(r *rand.Rand, big bool) {
 			maxLen = 300
 		}
 		payload, pf := genPayload(r, maxLen)
-		if r.Intn(25) == 0 {
+		if bigHistory {
+			framed = si == 1
+			payload, pf = fill(r, 100000+r.Intn(60000), "rand"), []string{"payload=rand", "size=>100K"}
+		}
+		if r.Intn(25) == 0 && !bigHistory {
 			payload = nil
 			pf = []string{"payload=empty"}
 		}
@@ -577,7 +615,7 @@ func genXW(r *rand.Rand, big bool) {
 		split, sf := genSplit(r, len(payload), 40)
 		feats[sf] = true
 		room := -1
-		if r.Intn(8) == 0 {
+		if r.Intn(8) == 0 && !bigHistory {
 			room = r.Intn(len(payload) + 40)
 			feats["sink-fails"] = true
 		}
@@ -701,7 +739,12 @@ func keys(m map[string]bool) []string {
 
 // checkWritten: the emitted stream decodes to the payload with the reference
 // decoders and through kafka-go's own reader.
-func checkWritten(codec *csnappy.Codec, framed bool, data, payload []byte) string {
+func checkWritten(codec *csnappy.Codec, framed bool, data, payload []byte) (why string) {
+	defer func() {
+		if p := recover(); p != nil {
+			why = fmt.Sprintf("PANIC-reading-the-written-stream:%v", p)
+		}
+	}()
 	if len(payload) == 0 {
 		if len(data) != 0 {
 			return "empty-payload-produced-bytes"
@@ -774,7 +817,33 @@ func randomBlocks(r *rand.Rand, payload []byte) [][]byte {
 	return blocks
 }
 
+// forcedBigBlocks: the next source is a reference-encoded xerial stream with blocks of these
+// sizes.  The format allows any block size and other clients use larger blocks than
+// kafka-go's writer (32 KiB): the reader's buffer must grow from any capacity to any frame.
+var forcedBigBlocks []int
+
+// forcedBigHistory: the next xw case is "a large unframed use, then a framed use of the same
+// pooled writer" (the grown buffer makes the framed stream emit equally large frames)
+var forcedBigHistory bool
+
 func genSource(r *rand.Rand, maxLen int, feats map[string]bool) (src []byte, payload []byte, valid bool) {
+	if forcedBigBlocks != nil {
+		var blocks [][]byte
+		for _, n := range forcedBigBlocks {
+			class := "rand"
+			if r.Intn(4) == 0 {
+				class = "json"
+			}
+			b := fill(r, n, class)
+			blocks = append(blocks, b)
+			payload = append(payload, b...)
+		}
+		forcedBigBlocks = nil
+		feats["src=reference-framed"] = true
+		feats["blocks>64K"] = true
+		feats["payload=rand"] = true
+		return refXerialEncode(blocks, func(b []byte) []byte { return ksnappy.Encode(nil, b) }), payload, true
+	}
 	payload, pf := genPayload(r, maxLen)
 	for _, f := range pf {
 		feats[f] = true
@@ -962,7 +1031,7 @@ func genXR(r *rand.Rand, big bool) {
 		if r.Intn(5) == 0 {
 			feats["WriteTo"] = true
 			mode = "T"
-			_, err := rc.(io.WriterTo).WriteTo(&got)
+			err := safeCopy(&got, rc, false)
 			final = err
 			if err == nil {
 				final = io.EOF // WriteTo maps io.EOF to nil; the model reports the same class
@@ -980,6 +1049,9 @@ func genXR(r *rand.Rand, big bool) {
 				s := pool[r.Intn(len(pool))]
 				if s < 1 {
 					s = 1
+				}
+				if s > 70000 {
+					s = 70000
 				}
 				sizes = append(sizes, s)
 			}
@@ -1020,7 +1092,7 @@ func genXR(r *rand.Rand, big bool) {
 				for j := range buf[:k] {
 					buf[j] = 0xAA
 				}
-				n, err := rc.Read(buf[:k])
+				n, err := safeRead(rc, buf[:k])
 				if n > k && refOK == "ok" {
 					// io.Reader: 0 <= n <= len(p); the caller's memory beyond len(p) is not the reader's
 					refOK = fmt.Sprintf("FAIL:stream%d:Read-returned-%d-bytes-for-a-buffer-of-%d", si, n, k)
@@ -1037,18 +1109,17 @@ func genXR(r *rand.Rand, big bool) {
 				lens = append(lens, kvfmt.U(uint64(n)))
 			}
 			if thenCopy && final == nil {
-				var err error
-				if r.Intn(2) == 0 {
-					_, err = io.Copy(&got, rc)
-				} else {
-					_, err = rc.(io.WriterTo).WriteTo(&got)
-				}
+				err := safeCopy(&got, rc, r.Intn(2) == 0)
 				final = err
 				if err == nil {
 					final = io.EOF
 				}
 				complete = true
 			}
+		}
+		if errors.Is(final, errPanic) {
+			refOK = fmt.Sprintf("FAIL:stream%d:PANIC:%s", si, strings.ReplaceAll(final.Error(), " ", "_"))
+			feats["PANIC"] = true
 		}
 		hr.UnwrapDecode()
 		rc.Close()
@@ -2089,6 +2160,125 @@ func genProto(r *rand.Rand) {
 	}
 }
 
+// ----------------------------------------------------------------------------- xerial streams with large and varying frames (Go side only)
+
+// blockOfCompressedSize returns a block whose snappy encoding has (as nearly as a few
+// rounds get it) the given length: incompressible bytes, or JSON-like text when compressible.
+func blockOfCompressedSize(r *rand.Rand, target int, compressible bool) []byte {
+	if compressible {
+		return fill(r, target, "json") // compresses to a fraction: a small frame from a large block
+	}
+	n := target - 8
+	if n < 1 {
+		n = 1
+	}
+	var b []byte
+	for i := 0; i < 6; i++ {
+		b = fill(r, n, "rand")
+		c := len(ksnappy.Encode(nil, b))
+		if c == target {
+			break
+		}
+		n += target - c
+		if n < 1 {
+			n = 1
+		}
+	}
+	return b
+}
+
+func alignUp(n, a int) int {
+	if n%a == 0 {
+		return n
+	}
+	return (n/a + 1) * a
+}
+
+// genBigXerial: a reference-encoded xerial stream whose frame sizes walk through the
+// reader's buffer growth: relative to the capacity c the reader has reached (32 KiB at
+// first, then the largest frame so far rounded up to 32 KiB) the next frame is c, 2c-1, 2c,
+// 2c+1, 4c+1, a shrink, or one of the fixed block sizes 64 KiB .. 1 MiB.
+func genBigXerial(r *rand.Rand) {
+	c := 32768
+	total := 0
+	var blocks [][]byte
+	var desc []string
+	feats := map[string]bool{"codec=snappy": true, "src=reference-framed": true}
+	for k := 2 + r.Intn(5); k > 0 && total < 3<<20; k-- {
+		var target int
+		switch r.Intn(9) {
+		case 0:
+			target = c
+		case 1:
+			target = 2*c - 1
+		case 2:
+			target = 2 * c
+		case 3:
+			target = 2*c + 1
+		case 4:
+			target = 4*c + 1
+		case 5:
+			target = 1 + r.Intn(c)
+			feats["shrinking-frame"] = true
+		default:
+			target = []int{1 << 10, 32 << 10, 64 << 10, 100 << 10, 256 << 10, 1 << 20}[r.Intn(6)]
+		}
+		if target > 1<<20+5 {
+			target = 1<<20 + 5
+		}
+		compressible := r.Intn(5) == 0
+		b := blockOfCompressedSize(r, target, compressible)
+		blocks = append(blocks, b)
+		total += len(b)
+		enc := len(ksnappy.Encode(nil, b))
+		desc = append(desc, fmt.Sprintf("%x", enc))
+		if enc > 65536 {
+			feats["frame>64K"] = true
+		}
+		if enc > 2*c {
+			feats["frame>2x-capacity"] = true
+		}
+		if a := alignUp(enc, 32768); a > c {
+			c = a
+		}
+	}
+	var payload []byte
+	for _, b := range blocks {
+		payload = append(payload, b...)
+	}
+	src := refXerialEncode(blocks, func(b []byte) []byte { return ksnappy.Encode(nil, b) })
+	sizes := [][]int{{4096}, {65536}, {1 << 20}, {1000, 70000}, {len(payload) + 1}}[r.Intn(5)]
+	why := func() (why string) {
+		defer func() {
+			if p := recover(); p != nil {
+				why = fmt.Sprintf("PANIC:%v", p)
+			}
+		}()
+		if d, err := refXerialDecode(src); err != nil || !bytes.Equal(d, payload) {
+			return "HARNESS:reference-decoder-does-not-read-the-reference-stream"
+		}
+		codec := compress.Codec(&compress.SnappyCodec)
+		if r.Intn(2) == 0 {
+			codec = &csnappy.Codec{}
+		}
+		var under io.Reader = bytes.NewReader(src)
+		if r.Intn(2) == 0 {
+			under = &chopReader{data: src, sizes: []int{1 + r.Intn(100000)}}
+		}
+		rd := codec.NewReader(under)
+		defer rd.Close()
+		d, err := readMixed(r, rd, sizes)
+		if err != nil {
+			return "read:" + err.Error()
+		}
+		if !bytes.Equal(d, payload) {
+			return "read-back-differs"
+		}
+		return ""
+	}()
+	emit("bigx", strings.Join(desc, ","), okOr(why), keys(feats))
+}
+
 // ----------------------------------------------------------------------------- the strict snappy block decoder vs its Coq counterpart
 
 func genSB(r *rand.Rand) {
@@ -2136,9 +2326,10 @@ func main() {
 	nrt := flag.Int("nrt", 300, "public-API round-trip cases")
 	nhist := flag.Int("nhist", 60, "pooled-history cases")
 	nconc := flag.Int("nconc", 10, "concurrent cases")
-	ntight := flag.Int("ntight", 10000, "rounds per goroutine of the tight concurrent run (per codec)")
+	ntight := flag.Int("ntight", 13000, "rounds per goroutine of the tight concurrent run (per codec)")
 	npool := flag.Int("npool", 30, "pool-discipline cases per codec side")
 	nsb := flag.Int("nsb", 200, "strict snappy block decoder cases")
+	nbig := flag.Int("nbig", 8, "xerial streams with frames up to 1 MiB (Go side only)")
 	flag.Parse()
 	out = bufio.NewWriterSize(os.Stdout, 1<<20)
 	defer out.Flush()
@@ -2153,11 +2344,18 @@ func main() {
 			// a block of 10626 bytes starts with the bytes 82 53 like the xerial magic; 130 with 82
 			forcedLen = []int{10626, 130}[i%2]
 		}
+		if i == 8 {
+			forcedBigHistory = true
+		}
 		genXW(r, i%8 == 7 || i < 8)
 		if i < 8 {
 			forcedLen = []int{10626, 130}[i%2]
 		}
-		genXR(r, i%8 == 7 || i < 8)
+		if i >= 8 && i < 12 {
+			// frames beyond 64 KiB compressed, growing and shrinking
+			forcedBigBlocks = [][]int{{66000}, {100000, 300, 70000}, {40000, 33000, 80000, 1000}, {65530, 65540, 131100}}[i-8]
+		}
+		genXR(r, i%8 == 7 || i < 8 || forcedBigBlocks != nil)
 		if i%16 == 15 {
 			debug.SetGCPercent(prevGC)
 			runtime.GC()
@@ -2178,6 +2376,9 @@ func main() {
 	}
 
 	// 2. all codecs through the public API
+	for i := 0; i < *nbig; i++ {
+		genBigXerial(r)
+	}
 	genMixRegressions()
 	genProto(r)
 	for i := 0; i < *nrt; i++ {
